@@ -133,10 +133,15 @@ CLAIMED.update({
              'paddings GENERATED from csv.py, row order, flattening); theorems for all rows/fields/paddings: a written line parses '
              'back to its fields, a written file to its rows, re-save is byte-identical, int(str(i)) = i incl. negative and 19-digit '
              'values, per-part round trips (trajectories, file/generic records, wifi/bluetooth, observations, sensors, rigs), '
-             'sorting is a permutation. Tied by byte-for-byte comparison of every file kapture_to_dir writes with the model\'s '
-             'rendering, of parsed rows with table_from_file, and of the whitespace table with str.isspace.',
-        note=COMMON_NOTE + 'PARTIAL at the typed layer: float(repr(x)), float()/int() of tokens and dataclass casts are CPython/'
-             'numpy facts exercised by the reload oracle (bit-identical floats, 1e-10 on points), not proved.',
+             'sorting is a permutation; and a TYPED layer (pose_to_list and both pose readers, int(), the casts to the field types '
+             'GENERATED from dataclasses.fields of the record classes) with typed round trips of trajectories, rigs, generic records, '
+             'radio signals, file records and observations for any float codec satisfying the three stated laws. Tied by '
+             'byte-for-byte comparison of every file kapture_to_dir writes with the model\'s '
+             'rendering, of parsed rows with table_from_file, of the whitespace table with str.isspace, and of the model\'s typed '
+             'decoding of the written text with what kapture_from_dir loaded.',
+        note=COMMON_NOTE + 'The typed theorems take the float codec laws (float(repr(x)) == x, a repr is a clean non-empty token, '
+             'float(\'\') raises) as hypotheses: CPython facts exercised by the reload oracle (bit-identical floats), not proved; '
+             '3-D point coordinates (%.10f, within 1e-10) are checked by the oracle only.',
         technique='Lean 4 proof (structural induction on character lists) + generated tables + byte-exact correspondence',
         design_ref='DESIGN.md §6 C01'),
     'C02': dict(
